@@ -372,6 +372,8 @@ package reedsolomon
 //@   ensures forall k int :: 0 <= k && k < len(this.cachedGenerators) ==> (k < old(len(this.cachedGenerators)) && this.cachedGenerators[k] == old(this.cachedGenerators[k])) || fresh(this.cachedGenerators[k].coefficients)
 //@   modifies this.cachedGenerators, this.cachedGenerators[cap]
 //@   assert call(Multiply,0): poly != nil && wfPoly(poly) && poly.field == this.field && len(poly.coefficients) == 2 && poly.coefficients[0] != 0
+// the d-th generator is the previous one times (x + alpha^(d-1+base)): generatorBase is 0 for QR codes and 1 for the other fields
+//@   assert call(Multiply,0): poly.coefficients[0] == 1 && poly.coefficients[1] == this.field.expTable[d - 1 + this.field.generatorBase] && lastGenerator == this.cachedGenerators[d-1]
 //@   assert call(Multiply,0): wfGF2(this.field)
 //@   assert call(Multiply,0): lastGenerator != nil && lastGenerator.field == this.field
 //@   assert call(Multiply,0): coeffsIn(lastGenerator.coefficients, this.field)
